@@ -470,4 +470,8 @@ def main(argv):
 
 
 if __name__ == "__main__":
-    sys.exit(main(sys.argv[1:]))
+    # run through the importable module so that checks and core share one
+    # module object (class identities such as Exn)
+    sys.path.insert(0, os.path.join(VERIF, "harness"))
+    import core as _core
+    sys.exit(_core.main(sys.argv[1:]))
